@@ -487,7 +487,33 @@ func c05r7(c *Ctx) {
 		rangeVals := map[types.Object]bool{}
 		ir.Walk(f.Body, false, func(x ast.Node) {
 			if rs, ok := x.(*ast.RangeStmt); ok && rs.Value != nil && rs.Tok == token.DEFINE {
-				if o := f.ObjOf(rs.Value); o != nil && !isPointer(o.Type()) {
+				// the list walked belongs to a (pooled) transaction: some prefix of the ranged expression is a
+				// transaction or a list of transactions (the diffs of an update are values of their own: nothing
+				// keeps what is written to them)
+				ofTxn := false
+				for e := ast.Unparen(rs.X); e != nil; {
+					if t := f.TypeOf(e); t != nil {
+						if sl, isSl := t.Underlying().(*types.Slice); isSl {
+							t = sl.Elem()
+						}
+						if ir.IsNamed(t, "go.sia.tech/core/types", "V2Transaction") || ir.IsNamed(t, "go.sia.tech/core/types", "Transaction") {
+							ofTxn = true
+						}
+					}
+					switch y := e.(type) {
+					case *ast.SelectorExpr:
+						e = ast.Unparen(y.X)
+					case *ast.IndexExpr:
+						e = ast.Unparen(y.X)
+					case *ast.SliceExpr:
+						e = ast.Unparen(y.X)
+					case *ast.StarExpr:
+						e = ast.Unparen(y.X)
+					default:
+						e = nil
+					}
+				}
+				if o := f.ObjOf(rs.Value); o != nil && !isPointer(o.Type()) && ofTxn {
 					rangeVals[o] = true
 				}
 			}
